@@ -7,10 +7,10 @@ import formats
 from cli import pmap, run_cli, bad_shape, write_files, Workdir
 from common import proof_step, load_corpus, load_known, run_go, run_model, log
 from histcheck import to_op, step_summary, chain_case
-from props import c01, c06, c07, c10, c11, c12, c13, c14, c19, c02
+from props import c01, c06, c07, c10, c11, c12, c13, c14, c19, c02, c09
 
 PID = "C08"
-GENS = [c01.gen_case, c07.gen_case, c10.gen_case, c11.gen_case, c12.gen_case, c13.gen_case, c14.gen_case, c19.gen_case, c02.gen_case]
+GENS = [c01.gen_case, c07.gen_case, c10.gen_case, c11.gen_case, c12.gen_case, c13.gen_case, c14.gen_case, c19.gen_case, c02.gen_case, c09.collide_case]
 DIRECTIVES = ["$merge", "$replace", "$match", "$value", "$delete", "$output", "$repeat", "$encode", "$decode", "$invert", "$required",
               "$parent", "$path", "$env:HOME", "$\"{a}\"", "$merge:a", "$replace:a.b", "$\"{t}\""]
 ARGS = [None, True, False, 0, 1, -1, 3, 1.5, "", "a", "a.b", "c", [], ["a"], ["a", "b"], {}, {"a": 1}, {"$match": {}}, [[]], [{}],
